@@ -142,6 +142,7 @@ type c01Harness struct {
 	dtlsT   *cdtls.Transport
 	lst     *c01Listener
 	decoy   *phantoms.SubnetConfig // a second generation the case never names
+	nEval   int
 }
 
 var c01TT = map[string]pb.TransportType{"min": pb.TransportType_Min, "obfs4": pb.TransportType_Obfs4, "prefix": pb.TransportType_Prefix, "dtls": pb.TransportType_DTLS}
@@ -297,14 +298,14 @@ func c01Creds(psk []byte, out *c01Out) error {
 	return nil
 }
 
-// station runs the real ingest path for one registration message.
-func (h *c01Harness) station(in c01Input, sel *phantoms.PhantomIPSelector, secret []byte, tp *anypb.Any) (c01Out, *DecoyRegistration) {
-	var out c01Out
+// stationMsg marshals the registration message the station ingests.  v4 and v6 are the client's
+// v4_support / v6_support flags (both = one dual-stack message).
+func (h *c01Harness) stationMsg(in c01Input, v4, v6 bool, secret []byte, tp *anypb.Any) []byte {
 	tt := c01TT[in.Tr]
 	c2s := &pb.ClientToStation{
 		DecoyListGeneration: proto.Uint32(in.Gen),
-		V4Support:           proto.Bool(!in.V6),
-		V6Support:           proto.Bool(in.V6),
+		V4Support:           proto.Bool(v4),
+		V6Support:           proto.Bool(v6),
 		Transport:           tt.Enum(),
 		TransportParams:     tp,
 		CovertAddress:       proto.String("192.0.2.1:443"),
@@ -314,23 +315,31 @@ func (h *c01Harness) station(in c01Input, sel *phantoms.PhantomIPSelector, secre
 	}
 	src := pb.RegistrationSource_API
 	addr := []byte(net.IPv4(198, 51, 100, 7).To4())
-	if in.V6 && len(secret) > 0 && secret[0]&1 == 1 {
-		addr = []byte(net.ParseIP("2001:db8::7"))
+	if !v4 && len(secret) > 0 && secret[0]&1 == 1 {
+		addr = []byte(net.ParseIP("2001:db8::7")) // an IPv4 registration needs an IPv4 registrant
 	}
 	msg, err := proto.Marshal(&pb.C2SWrapper{SharedSecret: secret, RegistrationPayload: c2s, RegistrationSource: &src, RegistrationAddress: addr})
 	if err != nil {
 		h.t.Fatalf("infrastructure: marshal: %v", err)
 	}
+	return msg
+}
+
+// stationParse pushes the message through the real parseRegMessage.
+func (h *c01Harness) stationParse(sel *phantoms.PhantomIPSelector, msg []byte) ([]*DecoyRegistration, string) {
 	h.rm.PhantomSelector = sel
 	regs, err := h.rm.parseRegMessage(msg)
 	if err != nil {
-		out.Err = c01ClassifyStationErr(err)
-		return out, nil
+		return nil, c01ClassifyStationErr(err)
 	}
-	if len(regs) != 1 || regs[0] == nil {
-		h.t.Fatalf("infrastructure: expected exactly one registration, got %d for %+v", len(regs), in)
-	}
-	reg := regs[0]
+	return regs, ""
+}
+
+// stationObserve reads what the station derived for one registration.  It is here that the transport
+// identifier is computed (obfs4 derives its node keys lazily at that moment), so the order in which
+// sibling registrations are observed is part of the case.
+func (h *c01Harness) stationObserve(in c01Input, reg *DecoyRegistration) c01Out {
+	var out c01Out
 	if reg.Keys != nil {
 		out.Seed = hex.EncodeToString(reg.Keys.ConjureSeed)
 	}
@@ -338,7 +347,7 @@ func (h *c01Harness) station(in c01Input, sel *phantoms.PhantomIPSelector, secre
 	out.Port = reg.PhantomPort
 	if reg.TransportPtr == nil {
 		out.Err = "other:no transport"
-		return out, nil
+		return out
 	}
 	out.ID = hex.EncodeToString([]byte((*reg.TransportPtr).GetIdentifier(reg)))
 	switch in.Tr {
@@ -362,7 +371,19 @@ func (h *c01Harness) station(in c01Input, sel *phantoms.PhantomIPSelector, secre
 			out.DCPub = "error:" + err.Error()
 		}
 	}
-	return out, reg
+	return out
+}
+
+// station runs the real ingest path for one single-family registration message.
+func (h *c01Harness) station(in c01Input, sel *phantoms.PhantomIPSelector, secret []byte, tp *anypb.Any) (c01Out, *DecoyRegistration) {
+	regs, class := h.stationParse(sel, h.stationMsg(in, !in.V6, in.V6, secret, tp))
+	if class != "" {
+		return c01Out{Err: class}, nil
+	}
+	if len(regs) != 1 || regs[0] == nil {
+		h.t.Fatalf("infrastructure: expected exactly one registration, got %d for %+v", len(regs), in)
+	}
+	return h.stationObserve(in, regs[0]), regs[0]
 }
 
 // ---- client side ----------------------------------------------------------------------------------
